@@ -3,6 +3,8 @@ package props
 import (
 	"bytes"
 	"fmt"
+	"sync"
+	"sync/atomic"
 
 	"gitlab.com/gomidi/midi/v2"
 	"gitlab.com/gomidi/midi/v2/drivers/testdrv"
@@ -118,13 +120,13 @@ func init() {
 		ID:    "C07",
 		Level: "exploration",
 		Rule: "exhaustive enumeration of constructor argument tuples (enumeration index is injective, so every evaluated tuple is distinct); " +
-			"a tuple is non-trivial always (each yields bytes compared with the MIDI 1.0 wire table, 11 accessor verdicts, and for in-range tuples a loopback delivery)",
+			"a tuple is non-trivial always (each yields bytes compared with the MIDI 1.0 wire table, 11 accessor verdicts, and for in-range tuples a loopback delivery); plus rounds of 8 goroutines constructing messages concurrently (the constructors are pure: results must not depend on the schedule)",
 		Assumptions: []string{
 			"the MIDI 1.0 wire table in harness/ref/wire.go is a correct transcription of the specification",
 			"out-of-range system-common arguments only need a well-formed message (statement)",
 			"loopback is observed through drivers/testdrv + midi.ListenTo with all listen options enabled",
 		},
-		Require: []string{"ctor_points", "loopback_deliveries", "accessor_calls", "out_of_range_points"},
+		Require: []string{"ctor_points", "loopback_deliveries", "accessor_calls", "out_of_range_points", "concurrent_ctor_points"},
 		Run:     runC07,
 	})
 }
@@ -389,6 +391,55 @@ func runC07(c *mon.Ctx) {
 			c.Eval(255)
 		})
 	}
+	// constructors are pure functions: their result must not depend on what other goroutines construct
+	// at the same moment (schedule diversity: 8 goroutines over disjoint argument ranges)
+	c.Each("concurrent", c.N(4, 32), func(round int64, _ *mon.Rand) {
+		var wg sync.WaitGroup
+		var bad int64
+		var firstBad atomic.Value
+		for g := 0; g < 8; g++ {
+			wg.Add(1)
+			go func(g int) {
+				defer wg.Done()
+				ch := (g + int(round)) % 16
+				for a := 0; a < 128; a++ {
+					for b := 0; b < 128; b++ {
+						var m midi.Message
+						var want []byte
+						switch (g + a) % 7 {
+						case 0:
+							m, want = midi.NoteOn(uint8(ch), uint8(a), uint8(b)), ref.Channel2(0x9, ch, a, b)
+						case 1:
+							m, want = midi.ControlChange(uint8(ch), uint8(a), uint8(b)), ref.Channel2(0xB, ch, a, b)
+						case 2:
+							m, want = midi.ProgramChange(uint8(ch), uint8(a)), ref.Channel1(0xC, ch, a)
+						case 3:
+							m, want = midi.Pitchbend(uint8(ch), int16(a*128+b-8192)), ref.PitchBend(ch, a*128+b-8192)
+						case 4:
+							m, want = midi.NoteOffVelocity(uint8(ch), uint8(a), uint8(b)), ref.Channel2(0x8, ch, a, b)
+						case 5:
+							m, want = midi.AfterTouch(uint8(ch), uint8(b)), ref.Channel1(0xD, ch, b)
+						default:
+							m, want = midi.PolyAfterTouch(uint8(ch), uint8(a), uint8(b)), ref.Channel2(0xA, ch, a, b)
+						}
+						if !bytes.Equal(m, want) {
+							if atomic.AddInt64(&bad, 1) == 1 {
+								firstBad.Store(fmt.Sprintf("goroutine %d: constructor for args (%d,%d,%d) returned % X, want % X", g, ch, a, b, []byte(m), want))
+							}
+						}
+					}
+				}
+			}(g)
+		}
+		wg.Wait()
+		c.Count("concurrent_ctor_points", 8*128*128)
+		c.Count("ctor_points", 8*128*128)
+		c.Eval(8*128*128 - 1)
+		if bad > 0 {
+			c.Violation("ctor-concurrent", fmt.Sprintf("%d of %d messages constructed concurrently by 8 goroutines had the wrong encoding; first: %v", bad, 8*128*128, firstBad.Load()), nil, nil, firstBad.Load())
+		}
+	})
+
 	c.Each("tune-realtime", 1, func(_ int64, _ *mon.Rand) {
 		for _, x := range []struct {
 			name string
